@@ -357,7 +357,8 @@ OpResume ==
               unproc == {x \in Names : Done(tk[x].state) /\ ~tk[x].processed}
               tk1 == [x \in Names |-> IF x \in unproc THEN [tk[x] EXCEPT !.processed = TRUE] ELSE tk[x]]
               S0 == Spend([Cur EXCEPT !.wf = "RUNNING", !.tk = tk1])
-          IN \E ip \in AnyPerm(idle), up \in AnyPerm(unproc) :
+          \* (the commands are permuted once more by the dispatcher: Arrangements; a fixed order of the IDLE tasks loses nothing)
+          IN \E ip \in {SeqOf(idle)}, up \in AnyPerm(unproc) :
                LET ex == [i \in 1..Len(ip) |-> [c |-> "existing", t |-> ip[i]]]
                    RECURSIVE Routes(_)
                    Routes(k) == IF k > Len(up) THEN <<>> ELSE Cmds(up[k], tk[up[k]].state) \o Routes(k + 1)
